@@ -788,13 +788,23 @@ func (pl *planner) rewriteBlockList(list *[]ast.Stmt, depth int) {
 		return
 	}
 	var out []ast.Stmt
-	for _, s := range *list {
+	for si, s := range *list {
 		out = append(out, pl.rewriteStmt(s, depth)...)
 		// a closure whose calls were inlined must still count as used
 		if as, ok := s.(*ast.AssignStmt); ok && as.Tok == token.DEFINE && len(as.Lhs) == 1 && len(as.Rhs) == 1 {
 			if id, ok := as.Lhs[0].(*ast.Ident); ok {
 				if _, isLit := as.Rhs[0].(*ast.FuncLit); isLit {
 					oid, _ := pl.root(id).(*ast.Ident)
+					// (an earlier round may have left the blank use already: the tree must not change unless something is inlined)
+					if si+1 < len(*list) {
+						if nx, isAs := (*list)[si+1].(*ast.AssignStmt); isAs && nx.Tok == token.ASSIGN && len(nx.Lhs) == 1 && len(nx.Rhs) == 1 {
+							if l, isID := nx.Lhs[0].(*ast.Ident); isID && l.Name == "_" {
+								if r, isID := nx.Rhs[0].(*ast.Ident); isID && r.Name == id.Name {
+									oid = nil
+								}
+							}
+						}
+					}
 					if oid != nil {
 						if v, ok := pl.pkg.TypesInfo.Defs[oid].(*types.Var); ok && pl.closures[v] != nil {
 							out = append(out, &ast.AssignStmt{Lhs: []ast.Expr{ast.NewIdent("_")}, Tok: token.ASSIGN, Rhs: []ast.Expr{ast.NewIdent(id.Name)}})
